@@ -139,25 +139,36 @@ func ConvertRecordValueToJsonStructure(pathes []PathExpression, row []value.Prim
 		return nil, errors.New("field length does not match")
 	}
 
+	var err error
 	for i, path := range pathes {
-		structure = addPathValueToRowStructure(structure, path.(ObjectPath), row[i], fieldLen)
+		structure, err = addPathValueToRowStructure(structure, path.(ObjectPath), row[i], fieldLen)
+		if err != nil {
+			return nil, err
+		}
 	}
 
 	return structure, nil
 }
 
-func addPathValueToRowStructure(parent json.Structure, path ObjectPath, val value.Primary, fieldLen int) json.Structure {
+func addPathValueToRowStructure(parent json.Structure, path ObjectPath, val value.Primary, fieldLen int) (json.Structure, error) {
 	var obj json.Object
 	if parent == nil {
 		obj = json.NewObject(fieldLen)
 	} else {
-		obj = parent.(json.Object)
+		var ok bool
+		if obj, ok = parent.(json.Object); !ok {
+			// a column "a" and a column "a.b": "a" cannot be a value and an object at once
+			return nil, errors.New(fmt.Sprintf("json path %q conflicts with the value of another column", path.Name))
+		}
 	}
 
 	if path.Child == nil {
 		obj.Add(path.Name, ParseValueToStructure(val))
 	} else {
-		valueStructure := addPathValueToRowStructure(obj.Value(path.Name), path.Child.(ObjectPath), val, fieldLen)
+		valueStructure, err := addPathValueToRowStructure(obj.Value(path.Name), path.Child.(ObjectPath), val, fieldLen)
+		if err != nil {
+			return nil, err
+		}
 		if obj.Exists(path.Name) {
 			obj.Update(path.Name, valueStructure)
 		} else {
@@ -165,7 +176,7 @@ func addPathValueToRowStructure(parent json.Structure, path ObjectPath, val valu
 		}
 	}
 
-	return obj
+	return obj, nil
 }
 
 func ParseValueToStructure(val value.Primary) json.Structure {
